@@ -247,7 +247,7 @@ def dtype_plumbing(ctx, tk, f):
             ctx.decide("C04.g", g, "the requested dtype is handed on to the row broadcast", True if "dtype" in roots else None, node=c.node, engine="E6")
 
 
-def geometry_equality(ctx, tk):
+def geometry_equality(ctx, tk, rule="C04.h"):
     f = ctx.func("raggedshape.ViewBase.__eq__")
     fa = ctx.fa(f)
     what = "geometry equality compares the complete (start, length) codes of both objects (row lengths of every row)"
@@ -255,17 +255,21 @@ def geometry_equality(ctx, tk):
         tm = fa.term(r.ast.value, r)
         cmpd = set()
         for x in walk(tm):
+            ops = ()
             if x.k == "cmp" and x.a[0] == "==":
-                for o in (x.a[1], x.a[2]):
-                    c = attr_chain(o)
-                    if c and len(c) == 2:
-                        cmpd.add(c[1])
+                ops = (x.a[1], x.a[2])
+            elif np_call(x, {"array_equal", "array_equiv"}) and len(x.a[1]) >= 2:
+                ops = (x.a[1][0], x.a[1][1])
+            for o in ops:
+                c = attr_chain(o)
+                if c and len(c) == 2:
+                    cmpd.add(c[1])
         if not cmpd:
-            ctx.unknown("C04.h", f, what, node=r.ast, engine="E6")
+            ctx.unknown(rule, f, what, node=r.ast, engine="E6")
             continue
         full = bool(cmpd & {"_codes", "lengths"}) or {"starts", "ends"} <= cmpd
         partial = cmpd <= {"starts", "ends", "n_rows", "size"} and not full
-        ctx.decide("C04.h", f, what, True if full else (False if partial else None),
+        ctx.decide(rule, f, what, True if full else (False if partial else None),
                    "only %s are compared: geometries differing in the last row's length (or only in lengths) compare equal, so the "
                    "different-row-lengths refusal does not fire" % sorted(cmpd), node=r.ast, engine="E6")
 
